@@ -187,6 +187,10 @@ class G08:
             for pn, fname, k in c.ctor:
                 args.append("self.%s" % fname)
             add(m, [], "Self", ["return Self(%s)" % ", ".join(args)], "clone")
+        if r.random() < 0.5:
+            o = self.fresh("o")
+            m = self.fresh(p + "pick")
+            add(m, [(o, "Self")], "Self", ["if %s.%s > self.%s {" % (o, fi, fi), "  return %s" % o, "}", "return self"], "pick")
         if r.random() < 0.6:
             o = self.fresh("o")
             m = self.fresh(p + "same")
@@ -669,6 +673,12 @@ class G08:
         if ret == "Self":
             if d["tag"] == "chain" and r.random() < 0.6:
                 return kind, ["print %s.%s(%d).%s()" % (call, m, r.randint(0, 9), cl.m_get)]
+            # a `-> Self` call that may hand back ANOTHER object (clone, pick), continued by a mutating `-> Self`
+            # call: the second call's receiver is the first call's result, not the first receiver
+            chains = sorted(mm for mm, dd in cl.methods.items() if dd["tag"] == "chain")
+            if chains and r.random() < 0.6:
+                self.features.add("chain_after:" + d["tag"])
+                return kind + ":then_chain", ["print %s.%s(%d).%s()" % (call, r.choice(chains), r.randint(1, 9), cl.m_get)]
             return kind, ["print %s.%s()" % (call, cl.m_get)]
         kc = self.cls(ret)
         return kind, ["print %s.%s()" % (call, kc.m_get)]
